@@ -44,6 +44,13 @@ public:
             throw_error("can't open file: `{}`", path);
         }
         output_stream << data;
+        // small files are only buffered by `<<`, the actual write happens on
+        // `close()`. The destructor would silently ignore its failure.
+        output_stream.close();
+        if(!output_stream)
+        {
+            throw_error("can't write file: `{}`", path);
+        }
     }
 
     void create_directories(const std::filesystem::path& path) override
